@@ -106,10 +106,8 @@ fn condense(input: Vec<(Found, u64)>, ran: &BTreeMap<(String, String), std::coll
     let mut v = input;
     // 1. a variant strategy (tracked, materialising, spilling, adaptive, ...) failing where the base strategy
     //    fails on the same chain and profile with the same kind family is explained by the base failure
-    let has = |v: &Vec<(Found, u64)>, layer: &str, strat: &str, chain: &str, profile: &str, fam: &str| v.iter().any(|(g, _)| fget(g, "layer") == layer && fget(g, "strategy") == strat && fget(g, "chain") == chain && fget(g, "profile") == profile && family(fget(g, "kind")) == fam);
     let snapshot: Vec<(String, String, String, String, String)> = v.iter().map(|(f, _)| (fget(f, "layer").to_string(), fget(f, "strategy").to_string(), fget(f, "chain").to_string(), fget(f, "profile").to_string(), family(fget(f, "kind")).to_string())).collect();
     let exists = |layer: &str, strat: &str, chain: &str, profile: &str, fam: &str| snapshot.iter().any(|x| x.0 == layer && x.1 == strat && x.2 == chain && x.3 == profile && x.4 == fam);
-    let _ = has;
     for (f, _) in v.iter_mut() {
         if fget(f, "layer") != "A-config" {
             continue;
@@ -117,35 +115,14 @@ fn condense(input: Vec<(Found, u64)>, ran: &BTreeMap<(String, String), std::coll
         let (st, ch, pr, fam) = (fget(f, "strategy").to_string(), fget(f, "chain").to_string(), fget(f, "profile").to_string(), family(fget(f, "kind")).to_string());
         let base = base_strategy(&st).to_string();
         if base != st && exists("A-config", &base, &ch, &pr, &fam) {
-            let kind = snapshot.iter().position(|x| x.0 == "A-config" && x.1 == base && x.2 == ch && x.3 == pr && x.4 == fam).unwrap();
-            let _ = kind;
             fset(f, "strategy", &base);
             f.rank = (usize::MAX, 0); // never the representative
         }
     }
     // after renaming, align kinds inside one family to the representative's kind
     let v2 = align_kinds(v);
-    // 2. a 2-chain failing where one of its operators alone fails (same strategy, profile, kind family)
-    let snapshot: Vec<(String, String, String, String, String)> = v2.iter().map(|(f, _)| (fget(f, "layer").to_string(), fget(f, "strategy").to_string(), fget(f, "chain").to_string(), fget(f, "profile").to_string(), family(fget(f, "kind")).to_string())).collect();
-    let exists = |layer: &str, strat: &str, chain: &str, profile: &str, fam: &str| snapshot.iter().any(|x| x.0 == layer && x.1 == strat && x.2 == chain && x.3 == profile && x.4 == fam);
     let mut v = v2;
-    for (f, _) in v.iter_mut() {
-        if fget(f, "layer") != "A-config" {
-            continue;
-        }
-        let ch = fget(f, "chain").to_string();
-        let Some((a, b)) = ch.split_once('>') else { continue };
-        let (st, pr, fam) = (fget(f, "strategy").to_string(), fget(f, "profile").to_string(), family(fget(f, "kind")).to_string());
-        for single in [a, b] {
-            if exists("A-config", &st, single, &pr, &fam) {
-                fset(f, "chain", single);
-                f.rank = (usize::MAX, 0);
-                break;
-            }
-        }
-    }
-    let mut v = align_kinds(v);
-    // 3. every 2-chain with the same first (or second) operator fails: name the operator position
+    // 2. every 2-chain with the same first (or second) operator fails: name the operator position
     for prefix in [true, false] {
         let mut ops: Vec<String> = pairs.iter().filter_map(|p| p.split_once('>').map(|(a, b)| if prefix { a.to_string() } else { b.to_string() })).collect();
         ops.sort();
@@ -173,6 +150,25 @@ fn condense(input: Vec<(Found, u64)>, ran: &BTreeMap<(String, String), std::coll
         }
         v = align_kinds(v);
     }
+    // 3. a (not yet generalised) 2-chain failing where one of its operators alone fails (same strategy, profile, kind family)
+    let snapshot: Vec<(String, String, String, String, String)> = v.iter().map(|(f, _)| (fget(f, "layer").to_string(), fget(f, "strategy").to_string(), fget(f, "chain").to_string(), fget(f, "profile").to_string(), family(fget(f, "kind")).to_string())).collect();
+    let exists = |layer: &str, strat: &str, chain: &str, profile: &str, fam: &str| snapshot.iter().any(|x| x.0 == layer && x.1 == strat && x.2 == chain && x.3 == profile && x.4 == fam);
+    for (f, _) in v.iter_mut() {
+        if fget(f, "layer") != "A-config" {
+            continue;
+        }
+        let ch = fget(f, "chain").to_string();
+        let Some((a, b)) = ch.split_once('>') else { continue };
+        let (st, pr, fam) = (fget(f, "strategy").to_string(), fget(f, "profile").to_string(), family(fget(f, "kind")).to_string());
+        for single in [a, b] {
+            if exists("A-config", &st, single, &pr, &fam) {
+                fset(f, "chain", single);
+                f.rank = (usize::MAX, 0);
+                break;
+            }
+        }
+    }
+    let mut v = align_kinds(v);
     // 4. profiles: "any" when the mechanism shows on every profile the chain was run on
     let mut groups: BTreeMap<(String, String, String, String), Vec<usize>> = BTreeMap::new();
     for (i, (f, _)) in v.iter().enumerate() {
